@@ -1,8 +1,573 @@
-//! `cfavml-harness emit ...` — placeholder, filled in elsewhere.
+//! `cfavml-harness emit <level> --seed N --cases K --out FILE`
+//!
+//! Correspondence driver (implementation side). Writes one line per case: `<request>\t<answer of the real code>`,
+//! in the line protocol of the Lean driver (/verif/lean/CfavmlModel/Driver/Main.lean). The check pipes the
+//! requests through the model and diffs the answers.
+//!   level `reg`  : every `SimdRegister<T>` method of every backend of this build, called directly
+//!   level `math` : every `Math<T>` method of StdMath / AutoMath (FastMath on nightly)
+//!   level `kern` : every xany export by name; the request names the (register, type, kernel) the
+//!                  translator extracted for that export, so a table slip shows as a disagreement
+#![allow(clippy::missing_safety_doc)]
 
-/// Entry point of the `emit` subcommand.  Returns the process exit code.
+use std::fmt::Write as _;
+use std::io::Write as _;
+use std::panic::{catch_unwind, AssertUnwindSafe};
+
+use cfavml::danger::*;
+use cfavml::math::{AutoMath, Math, StdMath};
+
+use crate::tables;
+
+pub trait Bits: Copy + Default + 'static {
+    const NAME: &'static str;
+    const W: u32;
+    const FLOAT: bool;
+    fn to_u64(self) -> u64;
+    fn from_u64(x: u64) -> Self;
+}
+
+macro_rules! bits_int {
+    ($t:ty, $u:ty, $w:expr) => {
+        impl Bits for $t {
+            const NAME: &'static str = stringify!($t);
+            const W: u32 = $w;
+            const FLOAT: bool = false;
+            fn to_u64(self) -> u64 {
+                (self as $u) as u64
+            }
+            fn from_u64(x: u64) -> Self {
+                (x as $u) as $t
+            }
+        }
+    };
+}
+bits_int!(i8, u8, 8);
+bits_int!(i16, u16, 16);
+bits_int!(i32, u32, 32);
+bits_int!(i64, u64, 64);
+bits_int!(u8, u8, 8);
+bits_int!(u16, u16, 16);
+bits_int!(u32, u32, 32);
+bits_int!(u64, u64, 64);
+impl Bits for f32 {
+    const NAME: &'static str = "f32";
+    const W: u32 = 32;
+    const FLOAT: bool = true;
+    fn to_u64(self) -> u64 {
+        self.to_bits() as u64
+    }
+    fn from_u64(x: u64) -> Self {
+        f32::from_bits(x as u32)
+    }
+}
+impl Bits for f64 {
+    const NAME: &'static str = "f64";
+    const W: u32 = 64;
+    const FLOAT: bool = true;
+    fn to_u64(self) -> u64 {
+        self.to_bits()
+    }
+    fn from_u64(x: u64) -> Self {
+        f64::from_bits(x)
+    }
+}
+
+pub struct Rng(u64);
+impl Rng {
+    pub fn new(seed: u64) -> Self {
+        Rng(seed.wrapping_mul(0x9E3779B97F4A7C15) | 1)
+    }
+    pub fn next(&mut self) -> u64 {
+        let mut x = self.0;
+        x ^= x >> 12;
+        x ^= x << 25;
+        x ^= x >> 27;
+        self.0 = x;
+        x.wrapping_mul(0x2545F4914F6CDD1D)
+    }
+    pub fn below(&mut self, n: u64) -> u64 {
+        self.next() % n.max(1)
+    }
+}
+
+/// value classes: 0 = arbitrary bits / boundaries, 1 = small integers (exact in every float op), 2 = moderate floats
+fn gen_val<T: Bits>(rng: &mut Rng, class: u32) -> T {
+    let mask = if T::W == 64 { u64::MAX } else { (1u64 << T::W) - 1 };
+    if T::FLOAT {
+        let small = |rng: &mut Rng| -> f64 { (rng.below(33) as f64) - 16.0 };
+        let v: f64 = match class {
+            1 => small(rng),
+            2 => ((rng.below(2_000_001) as f64) - 1_000_000.0) / 1024.0,
+            _ => {
+                let specials32: [u32; 12] = [
+                    0, 0x8000_0000, 0x3f80_0000, 0xbf80_0000, 0x7f80_0000, 0xff80_0000, 0x7fc0_0000, 0x0000_0001, 0x8000_0001, 0x7f7f_ffff,
+                    0x0080_0000, 0x3400_0000,
+                ];
+                let specials64: [u64; 12] = [
+                    0,
+                    0x8000_0000_0000_0000,
+                    0x3ff0_0000_0000_0000,
+                    0xbff0_0000_0000_0000,
+                    0x7ff0_0000_0000_0000,
+                    0xfff0_0000_0000_0000,
+                    0x7ff8_0000_0000_0000,
+                    1,
+                    0x8000_0000_0000_0001,
+                    0x7fef_ffff_ffff_ffff,
+                    0x0010_0000_0000_0000,
+                    0x3ca0_0000_0000_0000,
+                ];
+                return match rng.below(3) {
+                    0 => T::from_u64(if T::W == 32 { specials32[rng.below(12) as usize] as u64 } else { specials64[rng.below(12) as usize] }),
+                    _ => T::from_u64(rng.next() & mask),
+                };
+            },
+        };
+        if T::W == 32 {
+            T::from_u64((v as f32).to_bits() as u64)
+        } else {
+            T::from_u64(v.to_bits())
+        }
+    } else {
+        match class {
+            1 => T::from_u64((rng.below(33) as i64 - 16) as u64 & mask),
+            _ => {
+                let b: [u64; 8] = [0, 1, mask, mask >> 1, (mask >> 1) + 1, 2, mask - 1, (mask >> 1) - 1];
+                match rng.below(3) {
+                    0 => T::from_u64(b[rng.below(8) as usize]),
+                    _ => T::from_u64(rng.next() & mask),
+                }
+            },
+        }
+    }
+}
+
+fn hexlist<T: Bits>(xs: &[T]) -> String {
+    if xs.is_empty() {
+        return "-".to_string();
+    }
+    let mut s = String::new();
+    for (k, x) in xs.iter().enumerate() {
+        if k > 0 {
+            s.push(',');
+        }
+        let _ = write!(s, "{:x}", x.to_u64());
+    }
+    s
+}
+
+fn quiet_panics() {
+    std::panic::set_hook(Box::new(|_| {}));
+}
+
+fn answer<F: FnOnce() -> String>(f: F) -> String {
+    match catch_unwind(AssertUnwindSafe(f)) {
+        Ok(s) => s,
+        Err(_) => "fault panic".to_string(),
+    }
+}
+
+// --------------------------------------------------------------------------------------- register level
+
+unsafe fn reg_from<T: Bits, R: SimdRegister<T>>(lanes: &[T]) -> R::Register {
+    R::load(lanes.as_ptr())
+}
+unsafe fn reg_to<T: Bits, R: SimdRegister<T>>(r: R::Register, l: usize) -> Vec<T> {
+    let mut v = vec![T::default(); l];
+    R::write(v.as_mut_ptr(), r);
+    v
+}
+unsafe fn dense_from<T: Bits, R: SimdRegister<T>>(lanes: &[T], l: usize) -> DenseLane<R::Register> {
+    DenseLane {
+        a: reg_from::<T, R>(&lanes[0..l]),
+        b: reg_from::<T, R>(&lanes[l..2 * l]),
+        c: reg_from::<T, R>(&lanes[2 * l..3 * l]),
+        d: reg_from::<T, R>(&lanes[3 * l..4 * l]),
+        e: reg_from::<T, R>(&lanes[4 * l..5 * l]),
+        f: reg_from::<T, R>(&lanes[5 * l..6 * l]),
+        g: reg_from::<T, R>(&lanes[6 * l..7 * l]),
+        h: reg_from::<T, R>(&lanes[7 * l..8 * l]),
+    }
+}
+unsafe fn dense_to<T: Bits, R: SimdRegister<T>>(d: DenseLane<R::Register>, l: usize) -> Vec<T> {
+    let mut v = vec![];
+    for r in [d.a, d.b, d.c, d.d, d.e, d.f, d.g, d.h] {
+        v.extend(reg_to::<T, R>(r, l));
+    }
+    v
+}
+
+/// all register-level cases of one backend at one element type
+unsafe fn reg_cases<T: Bits, R: SimdRegister<T>>(reg: &str, fused: bool, rng: &mut Rng, cases: usize, out: &mut Vec<String>) {
+    let l = R::elements_per_lane();
+    let head = format!("reg {reg} {}", T::NAME);
+    out.push(format!("{head} elements_per_lane\tok {:x}", l));
+    out.push(format!("{head} elements_per_dense\tok {:x}", R::elements_per_dense()));
+    out.push(format!("{head} zeroed\tok {}", hexlist(&reg_to::<T, R>(R::zeroed(), l))));
+    out.push(format!("{head} zeroed_dense\tok {}", hexlist(&dense_to::<T, R>(R::zeroed_dense(), l))));
+    for c in 0..cases {
+        let class = if T::FLOAT { [0, 0, 2, 1][c % 4] } else { 0 };
+        let x: Vec<T> = (0..l).map(|_| gen_val::<T>(rng, class)).collect();
+        let y: Vec<T> = (0..l).map(|_| gen_val::<T>(rng, class)).collect();
+        let z: Vec<T> = (0..l).map(|_| gen_val::<T>(rng, class)).collect();
+        let v: T = gen_val::<T>(rng, class);
+        out.push(format!("{head} filled v:{:x}\tok {}", v.to_u64(), hexlist(&reg_to::<T, R>(R::filled(v), l))));
+        macro_rules! bin {
+            ($name:literal, $m:ident) => {{
+                let a = answer(|| format!("ok {}", hexlist(&reg_to::<T, R>(R::$m(reg_from::<T, R>(&x), reg_from::<T, R>(&y)), l))));
+                out.push(format!("{head} {} r:{} r:{}\t{}", $name, hexlist(&x), hexlist(&y), a));
+            }};
+        }
+        bin!("add", add);
+        bin!("sub", sub);
+        bin!("mul", mul);
+        if cfg!(feature = "nightly") && T::FLOAT && reg == "Fallback" {
+            // FastMath division (reciprocal multiplication is allowed): moderate operands only, compared within 2 ulp
+            let x2: Vec<T> = (0..l).map(|_| gen_val::<T>(rng, 2)).collect();
+            let y2: Vec<T> = (0..l).map(|_| gen_val::<T>(rng, 2)).collect();
+            let a = answer(|| format!("ok {}", hexlist(&reg_to::<T, R>(R::div(reg_from::<T, R>(&x2), reg_from::<T, R>(&y2)), l))));
+            out.push(format!("{head} div r:{} r:{}\t{}", hexlist(&x2), hexlist(&y2), a));
+        } else {
+            bin!("div", div);
+        }
+        bin!("max", max);
+        bin!("min", min);
+        // fused multiply-add is only compared on exactly representable data
+        let (fx, fy, fz): (Vec<T>, Vec<T>, Vec<T>) = if T::FLOAT && (fused || class == 0) {
+            (
+                (0..l).map(|_| gen_val::<T>(rng, 1)).collect(),
+                (0..l).map(|_| gen_val::<T>(rng, 1)).collect(),
+                (0..l).map(|_| gen_val::<T>(rng, 1)).collect(),
+            )
+        } else {
+            (x.clone(), y.clone(), z.clone())
+        };
+        out.push(format!(
+            "{head} fmadd r:{} r:{} r:{}\tok {}",
+            hexlist(&fx),
+            hexlist(&fy),
+            hexlist(&fz),
+            hexlist(&reg_to::<T, R>(R::fmadd(reg_from::<T, R>(&fx), reg_from::<T, R>(&fy), reg_from::<T, R>(&fz)), l))
+        ));
+        // horizontal folds: float sums on moderate / small data only (overflow to inf is fine, NaN payloads are not compared)
+        let hx: Vec<T> = if T::FLOAT && class == 0 { (0..l).map(|_| gen_val::<T>(rng, 2)).collect() } else { x.clone() };
+        out.push(format!("{head} sum_to_value r:{}\tok {:x}", hexlist(&hx), R::sum_to_value(reg_from::<T, R>(&hx)).to_u64()));
+        let mx: Vec<T> = if T::FLOAT { (0..l).map(|_| gen_val::<T>(rng, 2)).collect() } else { x.clone() };
+        out.push(format!("{head} max_to_value r:{}\tok {:x}", hexlist(&mx), R::max_to_value(reg_from::<T, R>(&mx)).to_u64()));
+        out.push(format!("{head} min_to_value r:{}\tok {:x}", hexlist(&mx), R::min_to_value(reg_from::<T, R>(&mx)).to_u64()));
+        // memory
+        let n = l * 2 + 3;
+        let mem: Vec<T> = (0..n).map(|_| gen_val::<T>(rng, class)).collect();
+        let off = rng.below((n - l + 1) as u64) as usize;
+        out.push(format!("{head} load m:{} o:{:x}\tok {}", hexlist(&mem), off, hexlist(&reg_to::<T, R>(R::load(mem.as_ptr().add(off)), l))));
+        let mut m2 = mem.clone();
+        R::write(m2.as_mut_ptr().add(off), reg_from::<T, R>(&x));
+        out.push(format!("{head} write m:{} o:{:x} r:{}\tok {}", hexlist(&mem), off, hexlist(&x), hexlist(&m2)));
+        // dense forms (every 4th case: they are eight times as long)
+        if c % 4 == 0 {
+            let dclass = if T::FLOAT { if fused { 1 } else { 2 } } else { 0 };
+            let dx: Vec<T> = (0..8 * l).map(|_| gen_val::<T>(rng, dclass)).collect();
+            let dy: Vec<T> = (0..8 * l).map(|_| gen_val::<T>(rng, dclass)).collect();
+            let dz: Vec<T> = (0..8 * l).map(|_| gen_val::<T>(rng, dclass)).collect();
+            macro_rules! dbin {
+                ($name:literal, $m:ident) => {{
+                    let a = answer(|| {
+                        format!("ok {}", hexlist(&dense_to::<T, R>(R::$m(dense_from::<T, R>(&dx, l), dense_from::<T, R>(&dy, l)), l)))
+                    });
+                    out.push(format!("{head} {} d:{} d:{}\t{}", $name, hexlist(&dx), hexlist(&dy), a));
+                }};
+            }
+            dbin!("add_dense", add_dense);
+            dbin!("sub_dense", sub_dense);
+            dbin!("mul_dense", mul_dense);
+            if !(cfg!(feature = "nightly") && T::FLOAT && reg == "Fallback" && class == 0) {
+                dbin!("div_dense", div_dense);
+            }
+            dbin!("max_dense", max_dense);
+            dbin!("min_dense", min_dense);
+            let sx: Vec<T> = if T::FLOAT { (0..8 * l).map(|_| gen_val::<T>(rng, 1)).collect() } else { dx.clone() };
+            let sy: Vec<T> = if T::FLOAT { (0..8 * l).map(|_| gen_val::<T>(rng, 1)).collect() } else { dy.clone() };
+            let sz: Vec<T> = if T::FLOAT { (0..8 * l).map(|_| gen_val::<T>(rng, 1)).collect() } else { dz.clone() };
+            out.push(format!(
+                "{head} fmadd_dense d:{} d:{} d:{}\tok {}",
+                hexlist(&sx),
+                hexlist(&sy),
+                hexlist(&sz),
+                hexlist(&dense_to::<T, R>(R::fmadd_dense(dense_from::<T, R>(&sx, l), dense_from::<T, R>(&sy, l), dense_from::<T, R>(&sz, l)), l))
+            ));
+            out.push(format!("{head} sum_to_register d:{}\tok {}", hexlist(&dx), hexlist(&reg_to::<T, R>(R::sum_to_register(dense_from::<T, R>(&dx, l)), l))));
+            out.push(format!("{head} max_to_register d:{}\tok {}", hexlist(&dx), hexlist(&reg_to::<T, R>(R::max_to_register(dense_from::<T, R>(&dx, l)), l))));
+            out.push(format!("{head} min_to_register d:{}\tok {}", hexlist(&dx), hexlist(&reg_to::<T, R>(R::min_to_register(dense_from::<T, R>(&dx, l)), l))));
+            out.push(format!("{head} filled_dense v:{:x}\tok {}", v.to_u64(), hexlist(&dense_to::<T, R>(R::filled_dense(v), l))));
+            let n = l * 8 + 5;
+            let mem: Vec<T> = (0..n).map(|_| gen_val::<T>(rng, class)).collect();
+            let off = rng.below(6) as usize;
+            out.push(format!("{head} load_dense m:{} o:{:x}\tok {}", hexlist(&mem), off, hexlist(&dense_to::<T, R>(R::load_dense(mem.as_ptr().add(off)), l))));
+            let mut m2 = mem.clone();
+            R::write_dense(m2.as_mut_ptr().add(off), dense_from::<T, R>(&dx, l));
+            out.push(format!("{head} write_dense m:{} o:{:x} d:{}\tok {}", hexlist(&mem), off, hexlist(&dx), hexlist(&m2)));
+        }
+    }
+}
+
+macro_rules! for_all_types {
+    ($f:ident, $R:ty, $reg:expr, $fused:expr, $rng:expr, $cases:expr, $out:expr) => {{
+        $f::<f32, $R>($reg, $fused, $rng, $cases, $out);
+        $f::<f64, $R>($reg, $fused, $rng, $cases, $out);
+        $f::<i8, $R>($reg, false, $rng, $cases, $out);
+        $f::<i16, $R>($reg, false, $rng, $cases, $out);
+        $f::<i32, $R>($reg, false, $rng, $cases, $out);
+        $f::<i64, $R>($reg, false, $rng, $cases, $out);
+        $f::<u8, $R>($reg, false, $rng, $cases, $out);
+        $f::<u16, $R>($reg, false, $rng, $cases, $out);
+        $f::<u32, $R>($reg, false, $rng, $cases, $out);
+        $f::<u64, $R>($reg, false, $rng, $cases, $out);
+    }};
+}
+
+#[target_feature(enable = "avx2")]
+unsafe fn reg_avx2(rng: &mut Rng, cases: usize, out: &mut Vec<String>) {
+    for_all_types!(reg_cases, Avx2, "Avx2", false, rng, cases, out);
+}
+#[target_feature(enable = "avx2,fma")]
+unsafe fn reg_avx2fma(rng: &mut Rng, cases: usize, out: &mut Vec<String>) {
+    reg_cases::<f32, Avx2Fma>("Avx2Fma", true, rng, cases, out);
+    reg_cases::<f64, Avx2Fma>("Avx2Fma", true, rng, cases, out);
+}
+#[cfg(feature = "nightly")]
+#[target_feature(enable = "avx512f,avx512bw")]
+unsafe fn reg_avx512(rng: &mut Rng, cases: usize, out: &mut Vec<String>) {
+    for_all_types!(reg_cases, Avx512, "Avx512", true, rng, cases, out);
+}
+unsafe fn reg_fallback(rng: &mut Rng, cases: usize, out: &mut Vec<String>) {
+    for_all_types!(reg_cases, Fallback, "Fallback", false, rng, cases, out);
+}
+
+// --------------------------------------------------------------------------------------- math level
+
+fn math_cases<T: Bits + PartialEq, M: Math<T>>(which: &str, rng: &mut Rng, cases: usize, out: &mut Vec<String>) {
+    let head = format!("math {which} {}", T::NAME);
+    out.push(format!("{head} zero\tok {:x}", M::zero().to_u64()));
+    out.push(format!("{head} one\tok {:x}", M::one().to_u64()));
+    out.push(format!("{head} max\tok {:x}", M::max().to_u64()));
+    out.push(format!("{head} min\tok {:x}", M::min().to_u64()));
+    for c in 0..cases {
+        let class = if T::FLOAT { [0, 2, 1][c % 3] } else { 0 };
+        let a: T = gen_val(rng, class);
+        let b: T = gen_val(rng, class);
+        macro_rules! bin {
+            ($name:literal, $m:ident) => {{
+                let r = answer(|| format!("ok {:x}", M::$m(a, b).to_u64()));
+                out.push(format!("{head} {} {:x} {:x}\t{}", $name, a.to_u64(), b.to_u64(), r));
+            }};
+        }
+        bin!("add", add);
+        bin!("sub", sub);
+        bin!("mul", mul);
+        if cfg!(feature = "nightly") && T::FLOAT && which != "StdMath" {
+            let a2: T = gen_val(rng, 2);
+            let b2: T = gen_val(rng, 2);
+            let r = answer(|| format!("ok {:x}", M::div(a2, b2).to_u64()));
+            out.push(format!("{head} div {:x} {:x}\t{}", a2.to_u64(), b2.to_u64(), r));
+        } else {
+            bin!("div", div);
+        }
+        // NaN operands of min/max: Rust returns the other operand; covered. ±0: canonicalised by the comparison.
+        bin!("cmp_min", cmp_min);
+        bin!("cmp_max", cmp_max);
+        out.push(format!("{head} cmp_eq {:x} {:x}\tok {}", a.to_u64(), b.to_u64(), M::cmp_eq(a, b)));
+        // sqrt: floats on any value; integers through f64 (non-negative values below 2^52 are the property's
+        // domain, the model covers the cast semantics for the others as well)
+        out.push(format!("{head} sqrt {:x}\tok {:x}", a.to_u64(), M::sqrt(a).to_u64()));
+        if T::FLOAT || a.to_u64() != (1u64 << (T::W - 1)) {
+            let r = answer(|| format!("ok {:x}", M::abs(a).to_u64()));
+            out.push(format!("{head} abs {:x}\t{}", a.to_u64(), r));
+        }
+    }
+}
+
+macro_rules! math_all {
+    ($M:ty, $which:expr, $rng:expr, $cases:expr, $out:expr) => {{
+        math_cases::<f32, $M>($which, $rng, $cases, $out);
+        math_cases::<f64, $M>($which, $rng, $cases, $out);
+        math_cases::<i8, $M>($which, $rng, $cases, $out);
+        math_cases::<i16, $M>($which, $rng, $cases, $out);
+        math_cases::<i32, $M>($which, $rng, $cases, $out);
+        math_cases::<i64, $M>($which, $rng, $cases, $out);
+        math_cases::<u8, $M>($which, $rng, $cases, $out);
+        math_cases::<u16, $M>($which, $rng, $cases, $out);
+        math_cases::<u32, $M>($which, $rng, $cases, $out);
+        math_cases::<u64, $M>($which, $rng, $cases, $out);
+    }};
+}
+
+// --------------------------------------------------------------------------------------- kernel level
+
+fn is_reduction(op: &str) -> bool {
+    matches!(op, "generic_sum" | "generic_squared_norm" | "generic_dot_product" | "generic_euclidean" | "generic_cosine")
+}
+
+macro_rules! kern_for_type {
+    ($t:ty, $r1:ident, $r2:ident, $m2:ident, $m1:ident, $rng:expr, $cases:expr, $out:expr) => {{
+        let metas: Vec<&tables::ExportMeta> = tables::EXPORT_META.iter().filter(|m| m.ty == <$t as Bits>::NAME).collect();
+        for m in metas {
+            if m.reg == "Neon" {
+                continue;
+            }
+            let lens = [0usize, 1, 7, 33, 67, 130, 300];
+            for c in 0..$cases {
+                let n = lens[(c + $rng.below(7) as usize) % lens.len()];
+                // float reductions are compared on exactly representable data only (summation order and
+                // fusion are then unobservable); everything else on arbitrary bits
+                let nightly_float = cfg!(feature = "nightly") && <$t as Bits>::FLOAT;
+                // nightly fast-math: `f*_algebraic` may reassociate / use reciprocals, so float cosine is not
+                // compared at all and float division only on moderate operands (compared within 2 ulp)
+                if nightly_float && m.op == "generic_cosine" {
+                    continue;
+                }
+                let class = if <$t as Bits>::FLOAT {
+                    if is_reduction(m.op) {
+                        1
+                    } else if nightly_float && m.op.contains("div") {
+                        2
+                    } else {
+                        [0, 2][c % 2]
+                    }
+                } else {
+                    0
+                };
+                let a: Vec<$t> = (0..n).map(|_| gen_val::<$t>($rng, class)).collect();
+                let b: Vec<$t> = (0..n).map(|_| gen_val::<$t>($rng, class)).collect();
+                let pre: Vec<$t> = (0..n).map(|_| gen_val::<$t>($rng, 0)).collect();
+                let v: $t = gen_val::<$t>($rng, class);
+                let head = format!("kern {} {} {} {:x}", m.reg, m.ty, m.op, n);
+                match m.kind {
+                    "reduce1" => {
+                        if let Some((_, f)) = tables::$r1.iter().find(|x| x.0 == m.xany) {
+                            let r = answer(|| format!("ok {:x}", unsafe { f(&a) }.to_u64()));
+                            $out.push(format!("{head} m:{}\t{}", hexlist(&a), r));
+                        }
+                    },
+                    "reduce2" => {
+                        if let Some((_, f)) = tables::$r2.iter().find(|x| x.0 == m.xany) {
+                            let r = answer(|| format!("ok {:x}", unsafe { f(&a, &b) }.to_u64()));
+                            $out.push(format!("{head} m:{} m:{}\t{}", hexlist(&a), hexlist(&b), r));
+                        }
+                    },
+                    "map2" => {
+                        if let Some((_, f)) = tables::$m2.iter().find(|x| x.0 == m.xany) {
+                            let mut res = pre.clone();
+                            let r = answer(|| {
+                                unsafe { f(&a, &b, &mut res) };
+                                format!("ok {}", hexlist(&res))
+                            });
+                            $out.push(format!("{head} m:{} m:{} m:{}\t{}", hexlist(&a), hexlist(&b), hexlist(&pre), r));
+                        }
+                    },
+                    _ => {
+                        if let Some((_, f)) = tables::$m1.iter().find(|x| x.0 == m.xany) {
+                            let mut res = pre.clone();
+                            let r = answer(|| {
+                                unsafe { f(v, &a, &mut res) };
+                                format!("ok {}", hexlist(&res))
+                            });
+                            $out.push(format!("{head} v:{:x} m:{} m:{}\t{}", v.to_u64(), hexlist(&a), hexlist(&pre), r));
+                        }
+                    },
+                }
+            }
+        }
+    }};
+}
+
 pub fn main_emit(args: &[String]) -> i32 {
-    let _ = args;
-    eprintln!("cfavml-harness emit: not implemented yet");
-    2
+    let mut level = String::new();
+    let mut seed = 1u64;
+    let mut cases = 8usize;
+    let mut outp = String::new();
+    let mut i = 0;
+    while i < args.len() {
+        match args[i].as_str() {
+            "--seed" => {
+                seed = args.get(i + 1).and_then(|s| s.parse().ok()).unwrap_or(1);
+                i += 2;
+            },
+            "--cases" => {
+                cases = args.get(i + 1).and_then(|s| s.parse().ok()).unwrap_or(8);
+                i += 2;
+            },
+            "--out" => {
+                outp = args.get(i + 1).cloned().unwrap_or_default();
+                i += 2;
+            },
+            other => {
+                if level.is_empty() {
+                    level = other.to_string();
+                }
+                i += 1;
+            },
+        }
+    }
+    if level.is_empty() || outp.is_empty() {
+        eprintln!("usage: cfavml-harness emit <reg|math|kern> --seed N --cases K --out FILE");
+        return 2;
+    }
+    quiet_panics();
+    let mut rng = Rng::new(seed);
+    let mut out: Vec<String> = vec![];
+    let nightly = cfg!(feature = "nightly");
+    let dbg = cfg!(debug_assertions);
+    // overflow-checks follow the profile in harness/Cargo.toml: on in dev, off in release
+    out.push(format!("env {} {} {} 1\tok", dbg as u8, dbg as u8, nightly as u8));
+    match level.as_str() {
+        "reg" => unsafe {
+            reg_fallback(&mut rng, cases, &mut out);
+            if std::arch::is_x86_feature_detected!("avx2") {
+                reg_avx2(&mut rng, cases, &mut out);
+            }
+            if std::arch::is_x86_feature_detected!("avx2") && std::arch::is_x86_feature_detected!("fma") {
+                reg_avx2fma(&mut rng, cases, &mut out);
+            }
+            #[cfg(feature = "nightly")]
+            if std::arch::is_x86_feature_detected!("avx512f") && std::arch::is_x86_feature_detected!("avx512bw") {
+                reg_avx512(&mut rng, cases, &mut out);
+            }
+        },
+        "math" => {
+            math_all!(StdMath, "StdMath", &mut rng, cases, &mut out);
+            math_all!(AutoMath, "AutoMath", &mut rng, cases, &mut out);
+            #[cfg(feature = "nightly")]
+            {
+                math_all!(cfavml::math::FastMath, "FastMath", &mut rng, cases, &mut out);
+            }
+        },
+        "kern" => {
+            kern_for_type!(f32, F32_REDUCE1_XANY, F32_REDUCE2_XANY, F32_MAP2_XANY, F32_MAP1V_XANY, &mut rng, cases, out);
+            kern_for_type!(f64, F64_REDUCE1_XANY, F64_REDUCE2_XANY, F64_MAP2_XANY, F64_MAP1V_XANY, &mut rng, cases, out);
+            kern_for_type!(i8, I8_REDUCE1_XANY, I8_REDUCE2_XANY, I8_MAP2_XANY, I8_MAP1V_XANY, &mut rng, cases, out);
+            kern_for_type!(i16, I16_REDUCE1_XANY, I16_REDUCE2_XANY, I16_MAP2_XANY, I16_MAP1V_XANY, &mut rng, cases, out);
+            kern_for_type!(i32, I32_REDUCE1_XANY, I32_REDUCE2_XANY, I32_MAP2_XANY, I32_MAP1V_XANY, &mut rng, cases, out);
+            kern_for_type!(i64, I64_REDUCE1_XANY, I64_REDUCE2_XANY, I64_MAP2_XANY, I64_MAP1V_XANY, &mut rng, cases, out);
+            kern_for_type!(u8, U8_REDUCE1_XANY, U8_REDUCE2_XANY, U8_MAP2_XANY, U8_MAP1V_XANY, &mut rng, cases, out);
+            kern_for_type!(u16, U16_REDUCE1_XANY, U16_REDUCE2_XANY, U16_MAP2_XANY, U16_MAP1V_XANY, &mut rng, cases, out);
+            kern_for_type!(u32, U32_REDUCE1_XANY, U32_REDUCE2_XANY, U32_MAP2_XANY, U32_MAP1V_XANY, &mut rng, cases, out);
+            kern_for_type!(u64, U64_REDUCE1_XANY, U64_REDUCE2_XANY, U64_MAP2_XANY, U64_MAP1V_XANY, &mut rng, cases, out);
+        },
+        other => {
+            eprintln!("unknown level {other}");
+            return 2;
+        },
+    }
+    match std::fs::File::create(&outp) {
+        Ok(mut fh) => {
+            for l in &out {
+                let _ = writeln!(fh, "{l}");
+            }
+            0
+        },
+        Err(e) => {
+            eprintln!("cannot write {outp}: {e}");
+            2
+        },
+    }
 }
